@@ -350,6 +350,71 @@ fn guarded<C>(check: &(dyn Fn(&C) -> CaseResult + Sync), case: &C) -> CaseResult
     }
 }
 
+// ---- the logging dimension ---------------------------------------------------------------------
+// Both crates are instrumented with `tracing`; the field expressions of an event or span are only
+// evaluated when a subscriber enables the call site. None of the properties may depend on whether
+// an application has installed one, so every fourth case is evaluated with a subscriber that enables
+// everything (TRACE), formats every field and throws the result away.
+
+struct EverythingOn(std::sync::atomic::AtomicU64);
+
+struct FormatAll(usize);
+
+impl tracing::field::Visit for FormatAll {
+    fn record_debug(&mut self, _field: &tracing::field::Field, value: &dyn Debug) {
+        use std::fmt::Write;
+        let mut s = String::new();
+        let _ = write!(s, "{value:?}");
+        self.0 += s.len();
+    }
+}
+
+impl tracing::Subscriber for EverythingOn {
+    fn enabled(&self, _m: &tracing::Metadata<'_>) -> bool {
+        true
+    }
+    fn new_span(&self, attrs: &tracing::span::Attributes<'_>) -> tracing::span::Id {
+        attrs.record(&mut FormatAll(0));
+        tracing::span::Id::from_u64(self.0.fetch_add(1, Ordering::Relaxed) + 1)
+    }
+    fn record(&self, _span: &tracing::span::Id, values: &tracing::span::Record<'_>) {
+        values.record(&mut FormatAll(0));
+    }
+    fn record_follows_from(&self, _span: &tracing::span::Id, _follows: &tracing::span::Id) {}
+    fn event(&self, event: &tracing::Event<'_>) {
+        event.record(&mut FormatAll(0));
+    }
+    fn enter(&self, _span: &tracing::span::Id) {}
+    fn exit(&self, _span: &tracing::span::Id) {}
+}
+
+pub const TRACED_SUFFIX: &str = " [only with a TRACE-level tracing subscriber installed]";
+
+/// `guarded` with a thread-local everything-enabled subscriber installed for the duration of the case.
+fn guarded_traced<C>(check: &(dyn Fn(&C) -> CaseResult + Sync), case: &C) -> CaseResult {
+    let sub = EverythingOn(std::sync::atomic::AtomicU64::new(0));
+    let mut r = tracing::subscriber::with_default(sub, || guarded(check, case));
+    if let Outcome::Fail(reason) = &mut r.outcome {
+        reason.push_str(TRACED_SUFFIX);
+    }
+    r.classes.push("evaluated_with_trace_subscriber");
+    r
+}
+
+/// Without a subscriber first, then (if that passed) with one: used for shrinking and replay, where
+/// the case alone must decide the outcome.
+fn guarded_both<C>(check: &(dyn Fn(&C) -> CaseResult + Sync), case: &C) -> CaseResult {
+    let r = guarded(check, case);
+    if matches!(r.outcome, Outcome::Fail(_)) {
+        return r;
+    }
+    let t = guarded_traced(check, case);
+    if matches!(t.outcome, Outcome::Fail(_)) {
+        return t;
+    }
+    r
+}
+
 /// Random search: `cases` proptest-generated cases split over WORKERS logical workers.
 pub struct RandomPart<C> {
     pub name: &'static str,
@@ -390,7 +455,7 @@ where
                             let strategy = make_strategy(tier);
                             let mut runner = runner_for(seed, name, w);
                             let mut st = WorkerStats::default();
-                            for _ in 0..per_worker {
+                            for i in 0..per_worker {
                                 if stop.load(Ordering::Relaxed) {
                                     break;
                                 }
@@ -399,7 +464,7 @@ where
                                     Err(_) => continue,
                                 };
                                 let case = tree.current();
-                                let res = guarded(check, &case);
+                                let res = if i % 4 == 3 { guarded_traced(check, &case) } else { guarded(check, &case) };
                                 if let Outcome::Fail(reason) = &res.outcome {
                                     stop.store(true, Ordering::Relaxed);
                                     // shrink (proptest's algorithm, bounded)
@@ -412,7 +477,7 @@ where
                                                 break;
                                             }
                                             let cur = tree.current();
-                                            let r = guarded(check, &cur);
+                                            let r = guarded_both(check, &cur);
                                             if let Outcome::Fail(reason) = r.outcome {
                                                 best = (cur, reason);
                                                 if !tree.simplify() {
@@ -450,7 +515,7 @@ where
 
     fn replay(&self, case: &Value) -> Result<CaseResult, String> {
         let case: C = serde_json::from_value(case.clone()).map_err(|e| e.to_string())?;
-        Ok(guarded(&*self.check, &case))
+        Ok(guarded_both(&*self.check, &case))
     }
 }
 
@@ -493,7 +558,7 @@ where
                                 if stop.load(Ordering::Relaxed) {
                                     break;
                                 }
-                                let res = guarded(check, &case);
+                                let res = if (i / WORKERS) % 4 == 3 { guarded_both(check, &case) } else { guarded(check, &case) };
                                 if let Outcome::Fail(reason) = &res.outcome {
                                     stop.store(true, Ordering::Relaxed);
                                     failures.lock().unwrap().push((
@@ -523,7 +588,7 @@ where
 
     fn replay(&self, case: &Value) -> Result<CaseResult, String> {
         let case: C = serde_json::from_value(case.clone()).map_err(|e| e.to_string())?;
-        Ok(guarded(&*self.check, &case))
+        Ok(guarded_both(&*self.check, &case))
     }
 }
 
